@@ -22,6 +22,7 @@ type Engine struct {
 	globals     map[*ssa.Global]*Object
 	maxIndexFan int
 	maxSymFork  int
+	skipStopOnce bool // vLoopStep: the first visit of the stop block is the loop entry, not its end
 
 	// per harness run
 	H *HarnessRun
@@ -276,7 +277,11 @@ func (e *Engine) run(frp **Frame, s *State, blk, prev, stop *ssa.BasicBlock, phi
 	for {
 		fr := *frp
 		if blk == stop && stop != nil {
-			return outcome{k: oStop, phis: e.evalPhis(fr, blk, prev)}
+			if e.skipStopOnce {
+				e.skipStopOnce = false
+			} else {
+				return outcome{k: oStop, phis: e.evalPhis(fr, blk, prev)}
+			}
 		}
 		if phis == nil && prev != nil {
 			phis = e.evalPhis(fr, blk, prev)
@@ -316,7 +321,7 @@ func (e *Engine) run(frp **Frame, s *State, blk, prev, stop *ssa.BasicBlock, phi
 					prev, blk = blk, blk.Succs[0]
 					break
 				}
-				if e.H.noMerge && !fr.harn {
+				if (e.H.noMerge && !fr.harn) || (e.H.enumFn != nil && fr.fn == e.H.enumFn) {
 					// path enumeration: this run follows one side; the harness is re-executed for the other
 					h := e.H
 					var v int
